@@ -68,6 +68,8 @@ CONSTANTS Delim,      \* the hierarchy delimiter, a one-character string
           RecComps,   \* {} or {"R", "r"}: spellings of the recovery mailbox (only as whole names)
           MaxDepth,   \* names typed by clients have 1..MaxDepth components
           MaxBoxes,   \* bound on mailboxes besides INBOX
+          Limit,      \* the configured mailbox-count limit as a client counts (INBOX included, the hidden recovery
+                      \* mailbox not: the server is configured with Limit + 1); 0 = no limit (C17)
           MaxDsub,    \* bound on names that are subscribed without a mailbox (exhaustive runs)
           Forms,      \* subset of {"plain", "trail", "lead", "dbl"}
           PatComps,   \* component ids used as literal tokens of LIST patterns
@@ -227,6 +229,10 @@ Rec(act, s, args, status, created, moved, removed, conn) ==
 WithinBounds(B) == ~Bounded \/ (Cardinality(B) <= MaxBoxes + 1 /\ \A n \in B : Len(n) <= MaxDepth)
 DsubWithinBounds(B, S) == ~Bounded \/ Cardinality(S \ B) <= MaxDsub
 
+\* C17: an operation that would leave more than Limit mailboxes - counting every mailbox it creates, implicit
+\* parents included - is refused as a whole
+OverLimit(B) == Limit > 0 /\ Cardinality(B) > Limit
+
 Refuse(act, s, args, status, conn) ==
   /\ last' = Rec(act, s, args, status, {}, {}, {}, conn)
   /\ UNCHANGED <<boxes, subs, holder>>
@@ -240,7 +246,7 @@ CreateOk(raw) ==
 Create(s, raw) ==
   LET n   == Canon(raw.c)
       new == ({n} \cup Supers(n)) \ boxes
-  IN IF CreateOk(raw)
+  IN IF CreateOk(raw) /\ ~OverLimit(boxes \cup new)
      THEN /\ WithinBounds(boxes \cup new)
           /\ boxes' = boxes \cup new
           /\ subs' = subs \cup new          \* G3
@@ -272,11 +278,18 @@ RenameOk(src, dst) ==
      \* names stay unique (a carried inferior may take a name that the rename itself vacates)
      /\ (o # Inbox => \A i \in Inferiors(o, boxes) : Moved(i, o, n) \notin (boxes \ ({o} \cup Inferiors(o, boxes))))
 
+\* the mailboxes there are after the rename (INBOX: a new mailbox takes the messages; others: carried inferiors,
+\* created superiors)
+RenameBoxes(o, n) ==
+  IF o = Inbox THEN boxes \cup {n} \cup Supers(n)
+  ELSE LET olds == {o} \cup Inferiors(o, boxes)
+       IN (boxes \ olds) \cup {Moved(i, o, n) : i \in olds} \cup Supers(n)
+
 Rename(s, src, dst) ==
   LET o    == Canon(src.c)
       n    == Canon(dst.c)
       args == <<Arg(src), Arg(dst)>>
-  IN IF RenameOk(src, dst)
+  IN IF RenameOk(src, dst) /\ ~OverLimit(RenameBoxes(o, n))
      THEN IF o = Inbox
           THEN LET new == ({n} \cup Supers(n)) \ boxes
                IN /\ WithinBounds(boxes \cup new)
@@ -326,7 +339,7 @@ CompsChars(n) == [i \in 1..Len(n) |-> Chars(n[i])]
 Conn(t, n, rec) == [target |-> Flat(t), comps |-> CompsChars(n), rec |-> rec]
 
 ConnCreate(n) ==
-  IF Canon(n) \notin boxes
+  IF Canon(n) \notin boxes /\ ~OverLimit(boxes \cup {n})
   THEN /\ WithinBounds(boxes \cup {n})
        /\ boxes' = boxes \cup {n}
        /\ subs' = subs \cup {n}
@@ -491,6 +504,8 @@ TypeOK == /\ \A n \in boxes \cup subs : n # <<>>
           /\ holder = None \/ holder \in boxes
 
 InboxExists == Inbox \in boxes
+\* C17: the number of mailboxes never exceeds the configured maximum
+WithinBoxLimit == Limit = 0 \/ Cardinality(boxes) <= Limit
 
 \* names are unique also under the case-insensitivity of INBOX: nothing else spells the first level "inbox"
 NamesUnique == \A n \in boxes \cup subs : Canon(n) = n
